@@ -343,6 +343,7 @@ func tooLarge(w *mon.W, c *mon.Case, get func(scfg) *sengine) {
 		stream = append(stream, fmt.Sprintf("GET /pre%d HTTP/1.1\r\nHost: h\r\n\r\n", i)...)
 	}
 	chunked := r.Bool()
+	kindDesc := ""
 	if chunked {
 		stream = append(stream, "POST /big HTTP/1.1\r\nHost: h\r\nTransfer-Encoding: chunked\r\n\r\n"...)
 		b := body
@@ -358,8 +359,25 @@ func tooLarge(w *mon.W, c *mon.Case, get func(scfg) *sengine) {
 		}
 		stream = append(stream, "0\r\n\r\n"...)
 	} else {
-		stream = append(stream, fmt.Sprintf("POST /big HTTP/1.1\r\nHost: h\r\nContent-Length: %d\r\n\r\n", n)...)
+		// the limit holds whatever the media type: plain, urlencoded, multipart (which the
+		// server pre-parses), with or without Expect: 100-continue
+		ctype := r.Str("", "", "Content-Type: application/x-www-form-urlencoded\r\n", "Content-Type: multipart/form-data; boundary=xx\r\n", "Content-Type: multipart/form-data; boundary=xx\r\n")
+		if strings.Contains(ctype, "multipart") {
+			pre, post := "--xx\r\nContent-Disposition: form-data; name=\"a\"\r\n\r\n", "\r\n--xx--\r\n"
+			if r.Bool() {
+				pre = "--xx\r\nContent-Disposition: form-data; name=\"f\"; filename=\"x.bin\"\r\nContent-Type: application/octet-stream\r\n\r\n"
+			}
+			if n > len(pre)+len(post) {
+				body = append(append([]byte(pre), bytes.Repeat([]byte("m"), n-len(pre)-len(post))...), post...)
+			}
+		}
+		expect := ""
+		if r.Chance(4) {
+			expect = "Expect: 100-continue\r\n"
+		}
+		stream = append(stream, fmt.Sprintf("POST /big HTTP/1.1\r\nHost: h\r\n%s%sContent-Length: %d\r\n\r\n", ctype, expect, n)...)
 		stream = append(stream, body...)
+		kindDesc = strings.TrimSpace(ctype + expect)
 	}
 	stream = append(stream, "GET /after HTTP/1.1\r\nHost: h\r\n\r\n"...)
 	frags, policy := wire.FragSchedule(r, stream, nil)
@@ -367,7 +385,7 @@ func tooLarge(w *mon.W, c *mon.Case, get func(scfg) *sengine) {
 	en.entries, en.handled, en.lastBodyErr = nil, nil, false
 	en.mu.Unlock()
 	c.Detail = func() interface{} {
-		return map[string]interface{}{"family": "too-large", "body": n, "chunked": chunked, "pre": pre, "policy": policy, "frag_sizes": wire.FragSizes(frags)}
+		return map[string]interface{}{"family": "too-large", "body": n, "chunked": chunked, "headers": kindDesc, "pre": pre, "policy": policy, "frag_sizes": wire.FragSizes(frags)}
 	}
 	sc := sconn.New(frags, sconn.EOF)
 	res := rig.Serve(en.e, sc, 4096, false, 20*time.Second)
@@ -386,12 +404,14 @@ func tooLarge(w *mon.W, c *mon.Case, get func(scfg) *sengine) {
 		}
 	}
 	msgs, _ := wire.ParseResponses(res.Out, nil, true)
-	if len(msgs) != pre+1 || msgs[len(msgs)-1].Status != 413 {
-		var st []int
-		for _, m := range msgs {
+	var st []int
+	for _, m := range msgs {
+		if m.Status >= 200 { // an interim 100 Continue before the rejection is not a final response
 			st = append(st, m.Status)
 		}
-		c.Violate("too-large-status", "statuses %v, want %d x 200 then 413", st, pre)
+	}
+	if len(st) != pre+1 || st[len(st)-1] != 413 {
+		c.Violate("too-large-status", "final statuses %v, want %d x 200 then 413", st, pre)
 		return
 	}
 	w.Shape(mon.Hash64("toolarge", n, chunked, pre, policy))
